@@ -114,7 +114,8 @@ def units():
               "trusted": ["E1 model of psf_binheader_writef (advances the header cache index)", "packet_writer_c: effect of sds_{2,3,4}byte_write on position and counters (frame contract, not enforced)",
                           "ghost file position driven by the psf_ftell / psf_fseek / psf_fwrite contracts"]})
     for cname, fn in (("au", "au_read_header"), ("avr", "avr_read_header"), ("htk", "htk_read_header"), ("wve", "wve_read_header"), ("mpc2k", "mpc2k_read_header"),
-                      ("mat4", "mat4_read_header"), ("mat5", "mat5_read_header"), ("ircam", "ircam_read_header")):
+                      ("mat4", "mat4_read_header"), ("mat5", "mat5_read_header"), ("ircam", "ircam_read_header"),
+                      ("paf", "paf_read_header")):
         U.append({"name": "parser." + cname, "props": ["C03"], "harness": "parser.harness.c", "entry": "h_parser", "dfcc": False,
                   "function": "%s.c:%s" % (cname, fn), "defines": ["-DPARSER_FILE=\"%s.c\"" % cname, "-DREAD_FN=" + fn],
                   "cbmc_flags": ["--object-bits", "9", "--unwind", "12", "--unwindset", "strlen.0:260"], "timeout": 600, "drop_flags": ["--signed-overflow-check"],
